@@ -45,16 +45,16 @@ func VerifSetBroadcastTap(tap func(node string, data []byte)) {
 	verifMu.Unlock()
 }
 
-// verifTapBroadcast builds the announcement exactly as broadcastShardChange does (type, node, shard, stamped
-// with the time of the broadcast) and hands it to the tap.
-func verifTapBroadcast(sm *shardManagerImpl, msgType string, shard history.ClusterShardID) bool {
+// verifTapBroadcast builds the announcement exactly as broadcastShardChange does (type, node, shard, the
+// timestamp the caller passed) and hands it to the tap.
+func verifTapBroadcast(sm *shardManagerImpl, msgType string, shard history.ClusterShardID, timestamp time.Time) bool {
 	verifMu.RLock()
 	tap := verifBroadcastTap
 	verifMu.RUnlock()
 	if tap == nil || sm.memberlistConfig == nil {
 		return false
 	}
-	msg := ShardMessage{Type: msgType, NodeName: sm.GetNodeName(), ClientShard: shard, Timestamp: time.Now()}
+	msg := ShardMessage{Type: msgType, NodeName: sm.GetNodeName(), ClientShard: shard, Timestamp: timestamp}
 	data, err := json.Marshal(msg)
 	if err != nil {
 		return true
